@@ -2,6 +2,7 @@ package main
 
 import (
 	"fmt"
+	"go/token"
 	"go/types"
 	"sort"
 	"strings"
@@ -473,18 +474,33 @@ func runC07Backend(c *Ctx, ea *engineAnchors) {
 			if typeShort(prm.Type()) != "*pokerface.GameState" {
 				continue
 			}
-			for _, ref := range *prm.Referrers() {
-				okUse := false
-				if call, ok := ref.(*ssa.Call); ok && call.Common().StaticCallee() == clone {
-					okUse = true
-				}
-				if _, ok := ref.(*ssa.DebugRef); ok {
-					okUse = true
-				}
-				if !okUse {
-					bad = append(bad, "the state handed in is used directly at "+p.InstrPos(ref)+" (not through cloneState): the caller's state can be modified or aliased")
+			var checkUses func(v *ssa.Parameter, depth int)
+			checkUses = func(v *ssa.Parameter, depth int) {
+				for _, ref := range *v.Referrers() {
+					okUse := false
+					if call, ok := ref.(*ssa.Call); ok {
+						callee := call.Common().StaticCallee()
+						if callee == clone {
+							okUse = true
+						} else if callee != nil && depth < 2 && callee.Pkg != nil && shortPkg(callee.Pkg.Pkg.Path()) == "table" && !token.IsExported(callee.Name()) {
+							// forwarded to a package-private helper: the helper's parameter must obey the same rule
+							for i, a := range call.Common().Args {
+								if a == ssa.Value(v) && i < len(callee.Params) {
+									checkUses(callee.Params[i], depth+1)
+									okUse = true
+								}
+							}
+						}
+					}
+					if _, ok := ref.(*ssa.DebugRef); ok {
+						okUse = true
+					}
+					if !okUse {
+						bad = append(bad, "the state handed in is used directly at "+p.InstrPos(ref)+" (not through cloneState): the caller's state can be modified or aliased")
+					}
 				}
 			}
+			checkUses(prm, 0)
 		}
 		s := newSumm(p, 1)
 		s.EngineAliases = false
